@@ -69,6 +69,7 @@ struct Geo {
 	bool hasNormals = false, hasTangents = false, hasColors = false, hasEye = false;
 	BoundingSphere bounds;
 	bool boundsSet = false;
+	bool trisAsMultiset = false;   // skinned SSE shapes read their triangles back from the partitions: same triangles, possibly rotated / regrouped
 };
 
 // compares what the accessors return with `g` under the precision of `stage` (memory or file)
@@ -84,7 +85,15 @@ void checkAgainst(const Ctx& c, NifFile& nif, NiShape* s, const Geo& g, bool fro
 	if (auto pv = nif.GetVertsForShape(s)) cmpV3(c, "vertsPtr", *pv, g.verts, nv, 0.0f, halfPos);
 	std::vector<Triangle> t;
 	s->GetTriangles(t);
-	cmpTris(c, "triangles", t, g.tris, g.tris.size());
+	if (g.trisAsMultiset && fromFile) {
+		R_eval();
+		auto key = [](Triangle x) { while (x.p1 > x.p2 || x.p1 > x.p3) x.rot(); return std::make_tuple(x.p1, x.p2, x.p3); };
+		std::multiset<std::tuple<uint16_t, uint16_t, uint16_t>> a, b;
+		for (auto& x : t) a.insert(key(x));
+		for (auto& x : g.tris) b.insert(key(x));
+		if (a != b) R_viol("value", c.site("triangles"), c.what + fmt(": triangles read back (%zu) are not the triangles that were set (%zu), compared as a multiset up to rotation", t.size(), g.tris.size()));
+	}
+	else cmpTris(c, "triangles", t, g.tris, g.tris.size());
 	if (s->GetNumTriangles() != g.tris.size()) R_viol("triangle-count", c.site("numTriangles"), c.what + fmt(": GetNumTriangles() = %u, expected %zu", s->GetNumTriangles(), g.tris.size()));
 	std::vector<Vector2> uv;
 	if (!g.uvs.empty()) {
@@ -196,6 +205,37 @@ void run(size_t idx) {
 	}
 	if (nvEff == 0) return;
 
+	// every third small model is skinned first (two bones, every vertex bound to them, partitions built): for SSE the vertex data of a
+	// skinned shape is written by its NiSkinPartition, and nothing below rebuilds the partitions before the model is saved
+	bool skinnedVariant = (idx / 6) % 3 == 2 && nvEff >= 3 && nvEff <= 2000 && !g.tris.empty();
+	if (skinnedVariant) {
+		R_phase("skin");
+		nif.CreateSkinning(s);
+		s = nif.FindBlockByName<NiShape>("shape");
+		std::vector<int> ids;
+		for (int b = 0; b < 2; b++) { MatTransform t; t.translation = Vector3((float)b, 0, 0); ids.push_back((int)nif.GetBlockID(nif.AddNode(fmt("Bone%d", b), t))); }
+		s = nif.FindBlockByName<NiShape>("shape");
+		nif.SetShapeBoneIDList(s, ids);
+		bool fo4 = v.stream >= 130 && v.file == 0x14020007;
+		if (!fo4) {
+			std::unordered_map<uint16_t, float> w0, w1;
+			for (size_t i = 0; i < nvEff; i++) { w0[(uint16_t)i] = 0.75f; w1[(uint16_t)i] = 0.25f; }
+			nif.SetShapeBoneWeights("shape", 0, w0);
+			nif.SetShapeBoneWeights("shape", 1, w1);
+		}
+		if (fo4 || v.stream == 100) {
+			std::vector<uint8_t> bi{0, 1};
+			std::vector<float> ww{0.75f, 0.25f};
+			for (size_t i = 0; i < nvEff; i++) nif.SetShapeVertWeights("shape", (uint16_t)i, bi, ww);
+		}
+		if (!fo4) nif.UpdateSkinPartitions(s);
+		s = nif.FindBlockByName<NiShape>("shape");
+		c.what += " [skinned before the setters]";
+		R_caseDesc(c.what);
+		R_stat("models_skinned_before_the_setters");
+		g.trisAsMultiset = true;
+	}
+
 	// setters
 	R_phase("setters");
 	Ctx cs = c;
@@ -231,7 +271,7 @@ void run(size_t idx) {
 		NifFile::SetEyeDataForShape(s, g.eye);
 		checkLengths(cs, nif, s, "SetEyeDataForShape");
 	}
-	if (nvEff >= 3) {
+	if (nvEff >= 3 && !skinnedVariant) {   // a new triangle list on a skinned shape needs UpdateSkinPartitions (documented), which this variant leaves out
 		Mesh m2 = randomMesh(rng, (int)std::min<size_t>(nvEff, 65535), (int)std::min<size_t>(g.tris.size() + 3, 300), false);
 		g.tris = m2.tris;
 		s->SetTriangles(g.tris);
